@@ -41,14 +41,18 @@ if not confirmed:
 out_dir = "/verif/seeded/%s-%s%s" % (prop, (os.environ.get("SEED_TAG") + "-") if os.environ.get("SEED_TAG") else "", n)
 os.makedirs(out_dir, exist_ok=True)
 shutil.copy(patch, out_dir + "/patch.diff"); shutil.copy(demo, out_dir + "/demo_test.go")
-# run the checks on /repo with the patch applied
+# run the checks on /repo with the patch applied (SEED_REPO: a clean worktree of /repo's HEAD to
+# use instead, for when /repo itself is busy with another run)
 caught = {}
-rc, out = sh("git status --short | wc -l", "/repo")
-assert out.strip() == "0", "/repo not clean"
-rc, out = sh("git apply %s" % patch, "/repo")
+REPO = os.environ.get("SEED_REPO", "/repo")
+if REPO != "/repo":
+    ENV["VERIF_REPO"] = REPO
+rc, out = sh("git status --short | wc -l", REPO)
+assert out.strip() == "0", REPO + " not clean"
+rc, out = sh("git apply %s" % patch, REPO)
 try:
     if rc != 0:
-        print("patch does not apply to /repo:", out); caught = {"error": "patch does not apply to current /repo"}
+        print("patch does not apply to", REPO, ":", out); caught = {"error": "patch does not apply to current /repo"}
     else:
         for c in checks:
             t0 = time.time()
@@ -57,7 +61,7 @@ try:
             caught[c] = {"exit": rc, "seconds": round(time.time() - t0), "lines": lines[:6]}
             print(c, "exit", rc, lines[:3])
 finally:
-    sh("git checkout -- .", "/repo")
+    sh("git checkout -- .", REPO)
 meta.update({"property": prop, "confirmation": res, "checks_run_with_patch_applied": caught, "base_commit": subprocess.check_output(["git", "-C", "/repo", "rev-parse", "--short", "HEAD"], text=True).strip()})
 json.dump(meta, open(out_dir + "/meta.json", "w"), indent=1)
 print("stored", out_dir, "detected:", any(v.get("exit") == 1 for v in caught.values() if isinstance(v, dict)))
